@@ -1578,6 +1578,16 @@ generate_pes_packet		(vbi_dvb_mux *		mx,
 			p_left = 184 - remainder;
 	}
 
+	if (unlikely (1 == p_left && 257 == last_du_size)) {
+		/* The last data unit (251 raw samples) has the maximum
+		   size, it cannot take a stuffing byte, and one byte is
+		   too small for a stuffing data unit. The packet has not
+		   reached its maximum size, insert_raw_data_units()
+		   shortens the data unit which would get it there:
+		   stuff another TS packet. */
+		p_left += 184;
+	}
+
 	size += p_left;
 
 	encode_stuffing (p, p_left, last_du_size, fixed_length);
